@@ -46,6 +46,8 @@
 //     name (options: "Allowed upgrade levels per package"; PackageUpdate.Name is the real name). An entry keyed by the
 //     alias configures nothing for the oracle (the default level applies); the update is judged on the root edge with
 //     the same KnownAs attribute.
+//   - package names: the level that applies is the one configured under the byte-identical registry name; whether a
+//     differently-cased key should also apply is not demanded (no such configuration is generated).
 //   - IgnoreDev of Update is not exercised.
 //
 // Cause keys: <strategy>:updates-none-package, :downgrade, :no-upward-move, :exceeds-level,
@@ -109,7 +111,7 @@ var levelName = []string{"major", "minor", "patch", "none"}
 func sharedProp(c *u.Case, name string) map[string]bool {
 	prop := ""
 	for _, q := range c.Manifest {
-		if u.FullName(c.Eco, q.Name) == name {
+		if c.Full(q.Name) == name {
 			prop = q.Prop
 		}
 	}
@@ -118,8 +120,8 @@ func sharedProp(c *u.Case, name string) map[string]bool {
 		return out
 	}
 	for _, q := range c.Manifest {
-		if q.Prop == prop && u.FullName(c.Eco, q.Name) != name {
-			out[u.FullName(c.Eco, q.Name)] = true
+		if q.Prop == prop && c.Full(q.Name) != name {
+			out[c.Full(q.Name)] = true
 		}
 	}
 	return out
@@ -615,6 +617,12 @@ func main() {
 			runAll(stOverride, func(emit func(*u.Case)) { b.GenPreShape(u.Maven, emit) })
 			runAll(stRelax, func(emit func(*u.Case)) { b.GenPreShape(u.NPM, emit) })
 			runAll(stRelax, func(emit func(*u.Case)) { b.GenAliasShape(emit) })
+			// mixed-case / separator-rich registry names, upgrade config built through both construction routes
+			runAll(stUpdate, func(emit func(*u.Case)) { b.GenNameShape(u.Maven, "name-update", emit) })
+			for _, nsh := range []string{"name-solo", "name-chain"} {
+				runAll(stOverride, func(emit func(*u.Case)) { b.GenNameShape(u.Maven, nsh, emit) })
+				runAll(stRelax, func(emit func(*u.Case)) { b.GenNameShape(u.NPM, nsh, emit) })
+			}
 		}
 	}
 
@@ -631,7 +639,7 @@ func main() {
 	r.Assume("the in-memory deps.dev LocalClient and the npm/Maven resolvers of deps.dev/util/resolve are the resolution semantics (the same ones the repository's own tests use)")
 	r.Assume("vulnerability matching uses the repository's IsAffected (decided separately by C18)")
 	rule := "For every tuple (universe, manifest, vulnerability set, upgrade config) of the bounded product below, for npm/relax and Maven/override (all candidate patches of ComputePatches and the patches FixVulns applies) and Maven/Update: every PackageUpdate u of a patch P has level(u.Name) != none; with v0 = version u.Name resolves to in manifest+(P-u) and v1 = in manifest+P (real writer, reader and resolver), v1 > v0 in the reference order and the most significant differing component of v0->v1 is allowed by the level (major: any, minor: minor/patch, patch: patch); direct requirements of `none` packages are textually unchanged in the written manifest; no tuple panics or runs longer than 120 s. " +
-		"Bound (" + r.Tier + "): " + b.Describe() + "; shapes " + strings.Join(u.FixShapes, ", ") + " (FixVulns; sharedprop Maven only) plus alias-solo, alias-plain, alias-chain (GenAliasShape, npm: a direct dependency declared as \"<alias>\": \"npm:<real>@<req>\", alone / next to a plain requirement of the same package / constraining a vulnerable transitive package; levels keyed by the real name, alias-keyed entries as controls) and prerelease (GenPreShape: solo over the ladder " + strings.Join(u.LadderPre, " ") + " with interleaved pre-releases) and update-solo, update-pair, update-dup (Update; update-dup = one package required twice, jar a1 and tests/test-jar a2, a1,a2 over the ladder) as defined in verif/universe/gen.go, each the full product of its lists, enumerated simplest first."
+		"Bound (" + r.Tier + "): " + b.Describe() + "; shapes " + strings.Join(u.FixShapes, ", ") + " (FixVulns; sharedprop Maven only) plus alias-solo, alias-plain, alias-chain (GenAliasShape, npm: a direct dependency declared as \"<alias>\": \"npm:<real>@<req>\", alone / next to a plain requirement of the same package / constraining a vulnerable transitive package; levels keyed by the real name, alias-keyed entries as controls) name-solo, name-chain, name-update (GenNameShape: registry names from " + fmt.Sprint(u.NameAlphabet) + " instead of d1/t1, upgrade config built by Config.Set and by NewConfigFromStrings, keyed by the exact name) and prerelease (GenPreShape: solo over the ladder " + strings.Join(u.LadderPre, " ") + " with interleaved pre-releases) and update-solo, update-pair, update-dup (Update; update-dup = one package required twice, jar a1 and tests/test-jar a2, a1,a2 over the ladder) as defined in verif/universe/gen.go, each the full product of its lists, enumerated simplest first."
 	os.RemoveAll(scratchRoot)
 	r.Finish(rule, exhaustive)
 }
